@@ -190,10 +190,44 @@ def r11c(ctx, rep, cr):
             rep.violation('R11c', f, 'delete-shape', f.loc(), 'anchor-missing: SlabRouter::delete no longer calls MetadataSlab::delete')
 
 
+def r11d(ctx, rep, cr):
+    rep.rule('R11d', 'the membership filter never lags the data: in every TensorStore method that both adds a key to the Bloom filter and '
+                     'writes it through the router (put, put_durable, …), the filter add precedes the router write on every path — get() and '
+                     'exists() answer NotFound from the filter alone, so a key that scan() already lists must already be in it')
+    n = 0
+    for name, f in cr.fns.items():
+        if not name.startswith('tensor_store::TensorStore::') or '{closure' in name:
+            continue
+        adds = [c for c in A.calls(f) if re.search(r'BloomFilter::add$', c.resolved)]
+        writes = [c for c in A.calls(f) if re.search(r'slab_router::SlabRouter::(put|put_durable|batch_put\w*)$', c.resolved)]
+        if not adds or not writes:
+            continue
+        n += 1
+        rep.analysed(f)
+        # the add sits under `if let Some(filter) = self.bloom_filter`: cut the add blocks and the no-filter bypass
+        cd = A.control_deps(f)
+        bypass = set()
+        for c in adds:
+            for (a, s2) in cd.get(c.bb, ()):
+                for s3 in set(A.succs(f, a)):
+                    if s3 != s2:
+                        bypass.add((a, s3))
+        R = A.reachable(f, [0], cut_blocks={c.bb for c in adds}, cut_edges=bypass)
+        late = [w for w in writes if w.bb in R]
+        if late:
+            rep.violation('R11d', f, 'write-before-filter-add', f.loc(late[0].line),
+                          'with a Bloom filter configured the router write is reachable before the key is added to the filter: a concurrent reader '
+                          'sees the key in a scan and is told NotFound by get()/exists()')
+        else:
+            rep.holds('R11d', f, 'filter add → write', '')
+    rep.floor('R11d', 'TensorStore methods adding to the filter and writing', n, 2)
+
+
 def run(ctx, rep):
     cr = ctx.crate('tensor_store')
     r11a(ctx, rep, cr)
     r11b(ctx, rep, cr)
     r11c(ctx, rep, cr)
+    r11d(ctx, rep, cr)
     if ctx.tier == 'thorough':
         witness.run(rep, 'R11a', ['MetadataShardsArePrivate'])
